@@ -220,7 +220,36 @@ func nonCanon6(r *rand.Rand) []byte {
 	n := 1 + r.IntN(4)
 	for i := 0; i < n; i++ {
 		var o []byte
-		switch r.IntN(12) {
+		switch r.IntN(14) {
+		case 12, 13: // names whose labels hold octets a dotted string cannot carry faithfully: '.' at a label edge or alone,
+			// NUL, upper case, high octets (uncompressed, root-terminated: only the verbatim wire form keeps them apart)
+			var v []byte
+			for k := 0; k < 1+r.IntN(3); k++ {
+				for l := 0; l < 1+r.IntN(3); l++ {
+					lab := gen4.Bytes(r, 1+r.IntN(6))
+					for i := range lab {
+						lab[i] = []byte{'a', 'b', 'w', 'Z', '.', '.', 0, 0x80, '-', '\\'}[r.IntN(10)]
+					}
+					switch r.IntN(4) {
+					case 0:
+						lab[0] = '.'
+					case 1:
+						lab[len(lab)-1] = '.'
+					case 2:
+						lab = []byte{'.'}
+					}
+					v = append(append(v, byte(len(lab))), lab...)
+				}
+				v = append(v, 0)
+			}
+			switch r.IntN(3) {
+			case 0:
+				o = tlv(24, v)
+			case 1:
+				o = tlv(39, append([]byte{byte(r.UintN(8))}, v...))
+			default:
+				o = tlv(56, tlv(3, v))
+			}
 		case 0: // ORO with duplicate codes
 			var v []byte
 			for k := 0; k < 2+r.IntN(6); k++ {
